@@ -255,6 +255,11 @@ impl Ctx {
     /// (once) and the run continues; otherwise a replay file is written and a VIOLATION line printed.
     /// Returns true when it was a new violation.
     pub fn violation(&mut self, key: &str, what: &str, kind: &str, case: Value) -> bool {
+        if key.starts_with("HARNESS/") {
+            // a self-check of the harness failed: never a verdict about the code under test
+            self.inconclusive(&format!("harness self-check failed [{}]: {} case={}", key, what, case));
+            return false;
+        }
         if let Some(k) = self.is_known_open(key) {
             let line = format!("KNOWN-FINDING: property={} {} [{}]", self.id, k.what, key);
             if self.known_hit.insert(key.to_string()) {
